@@ -85,10 +85,8 @@ class FilterConv(Module):
         else:
             pad1a = indices
 
-        domain_sizes = [self.domain.nelx, self.domain.nely, self.domain.nelz]
-        padded_sizes = [self.domain.nelx + 2 * self.pad_sizes[0],
-                        self.domain.nely + 2 * self.pad_sizes[1],
-                        self.domain.nelz + 2 * self.pad_sizes[2]]
+        domain_sizes = [self.domain.nelx, self.domain.nely, max(1, self.domain.nelz)]  # One layer of elements in 2D
+        padded_sizes = [n + 2 * p for n, p in zip(domain_sizes, self.pad_sizes)]
 
         # Process edge 1
         pad_width = [(0, 0) for _ in range(indices.ndim)]
